@@ -45,14 +45,25 @@ impl LabelResolver {
                     *label_to_address.get(x).unwrap(),
                 ));
             }
-            Instruction::GoSub(AddressOrLabel::Unresolved(x)) => {
-                *instruction =
-                    Instruction::GoSub(AddressOrLabel::Resolved(*label_to_address.get(x).unwrap()));
+            Instruction::GoSub(AddressOrLabel::Unresolved(x), for_depth, select_depth) => {
+                *instruction = Instruction::GoSub(
+                    AddressOrLabel::Resolved(*label_to_address.get(x).unwrap()),
+                    *for_depth,
+                    *select_depth,
+                );
             }
-            Instruction::Return(Some(AddressOrLabel::Unresolved(label))) => {
-                *instruction = Instruction::Return(Some(AddressOrLabel::Resolved(
-                    *label_to_address.get(label).unwrap(),
-                )));
+            Instruction::Return(
+                Some(AddressOrLabel::Unresolved(label)),
+                for_depth,
+                select_depth,
+            ) => {
+                *instruction = Instruction::Return(
+                    Some(AddressOrLabel::Resolved(
+                        *label_to_address.get(label).unwrap(),
+                    )),
+                    *for_depth,
+                    *select_depth,
+                );
             }
             Instruction::ResumeLabel(
                 AddressOrLabel::Unresolved(label),
